@@ -4,7 +4,8 @@ import CV.Proofs.RangeDecTotal
 
 `Fits c e 0` / `MsgFits c n`: the 64-bit `usize` results do not overflow (necessary:
 `num_words()` panics on `from_raw_parts(.., Inverted(usize::MAX, _))`).
-**Not covered:** histories containing `RangeEncoder::clear` (stale `situation`, see C08_range).
+Histories may contain `clear()` at any point: it yields the state of `new()`
+(`C02_range_clear_eq_new`), which satisfies `Inv`; right after it `is_empty`, `num_words = 0`.
 -/
 namespace CV.Range
 
